@@ -533,6 +533,12 @@ func (rm *relayManager) handleCreateRelayRequest(v cert.Version, h *HostInfo, f 
 		if !rm.GetAmRelay() {
 			return
 		}
+		// The relay is negotiated for the pair (sender, target): the claimed source must be the
+		// authenticated sender itself, or a peer could re-negotiate another pair's relay.
+		if !slices.Contains(h.vpnAddrs, from) {
+			logMsg.Error("Discarding relay request whose relayFrom is not the sender")
+			return
+		}
 		peer := rm.hostmap.QueryVpnAddr(target)
 		if peer == nil {
 			// Try to establish a connection to this host. If we get a future relay request,
